@@ -1,9 +1,10 @@
 (* C08: no placement of a reference cycle can end in a value.  [forces v k]: rendering [v] to a
    value requires rendering the reference ${k} (a whole-value reference, a reference embedded in
    text, or either of them inside a list, a mapping or a layer of a multiply-defined value).  If
-   every parameter of a set forces a reference to a parameter of the set, none of them -- and
-   nothing that forces one of them -- ever renders to a value; with termination and the no-panic
-   theorem: it renders to an error from some fuel on. *)
+   every path of a set (a parameter k, or a member k:a:b reached through plain mappings) holds a
+   value that forces a reference to a path of the set, none of them -- and nothing that forces
+   one of them -- ever renders to a value; with termination and the no-panic theorem: it
+   renders to an error from some fuel on. *)
 From RV Require Import Model.Interp Proofs.ValueFacts Proofs.MappingFacts Proofs.WfFacts Proofs.InterpFacts
      Proofs.Mono Proofs.NoPanic Proofs.Termination Proofs.CycleFacts.
 
@@ -51,9 +52,35 @@ Section General.
     - inversion H; subst; [now left | right; now apply IH].
   Qed.
 
-  (** every parameter of the set is a single-segment key whose value forces a reference into the set *)
-  Hypothesis Hcyc : forall k, In k ks ->
-    split_on ":" k = [k] /\ exists v0, m_get (VStr k) root = Some v0 /\ forces v0.
+  (** the member at a segment list, through plain (unrendered) mappings only *)
+  Fixpoint raw_lookup (segs : list string) (v : value) : option value :=
+    match segs with
+    | [] => Some v
+    | k :: segs' =>
+        match v with
+        | VMap m => match m_get (VStr k) m with Some v1 => raw_lookup segs' v1 | None => None end
+        | _ => None
+        end
+    end.
+
+  (** every path of the set leads, through plain mappings, to a value that forces a reference into the set *)
+  Hypothesis Hcyc : forall p, In p ks ->
+    exists k0 segs v0 v', split_on ":" p = k0 :: segs /\ m_get (VStr k0) root = Some v0 /\
+                          raw_lookup segs v0 = Some v' /\ forces v'.
+
+  Lemma walk_raw f path : forall segs v st trav v',
+    raw_lookup segs v = Some v' ->
+    match walk_loop (interp_sov f root) path segs v st trav with
+    | Ok (w, st') => w = v' /\ st' = st
+    | _ => True
+    end.
+  Proof.
+    induction segs as [|key segs IH]; intros v st trav v' H; cbn [raw_lookup walk_loop] in *.
+    - injection H as <-. split; reflexivity.
+    - destruct v as [| | | | | m | |]; try discriminate.
+      destruct (m_get (VStr key) m) as [v1|] eqn:G; [|discriminate].
+      destruct f as [|f']; [exact I|]. cbn [interp_sov bind]. rewrite G. apply IH, H.
+  Qed.
 
   (** the loops stop being Ok as soon as one callee is not *)
   Lemma seq_loop_not_ok call st : forall l idx,
@@ -103,7 +130,7 @@ Section General.
               | Ok (v, _) => forces v /\ is_string v = false /\ is_vlist v = false
               | _ => True
               end).
-    { intros f Hf k st Hk. destruct (Hcyc k Hk) as (Hsplit & v0 & Hget & Hfv).
+    { intros f Hf k st Hk. destruct (Hcyc k Hk) as (k0 & segs & v0 & v' & Hsplit & Hget & Hraw & Hfv).
       destruct f as [|f2]; [exact I|]. cbn [token_resolve].
       destruct (Nat.ltb RESOLVE_MAX_DEPTH (depth (with_depth st (S (depth st))))); [exact I|].
       destruct (token_slice f2 root [TLit k] (with_depth st (S (depth st)))) as [path| | |] eqn:Esl; cbn [bind]; try exact I.
@@ -113,11 +140,14 @@ Section General.
         injection Esl as <-. apply str_app_nil_r. }
       subst path.
       destruct (mem k (seen (with_depth st (S (depth st))))); [exact I|].
-      rewrite Hsplit, Hget. cbn [walk_loop bind].
+      rewrite Hsplit, Hget.
+      pose proof (walk_raw f2 k segs v0 (add_seen (with_depth st (S (depth st))) k) [k0] v' Hraw) as Hwalk.
+      destruct (walk_loop (interp_sov f2 root) k segs v0 (add_seen (with_depth st (S (depth st))) k) [k0]) as [[w st3]| | |]; cbn [bind]; try exact I.
+      destruct Hwalk as [-> ->].
       destruct f2 as [|f3]; [exact I|]. cbn [interp_while].
-      destruct (is_string v0 || is_vlist v0) eqn:Eb.
-      - pose proof (IHi f3 ltac:(lia) v0 (add_seen (with_depth st (S (depth st))) k) Hfv) as Hn.
-        destruct (interp f3 root v0 (add_seen (with_depth st (S (depth st))) k)) as [[c sx]| | |]; cbn [bind]; try exact I. contradiction.
+      destruct (is_string v' || is_vlist v') eqn:Eb.
+      - pose proof (IHi f3 ltac:(lia) v' (add_seen (with_depth st (S (depth st))) k) Hfv) as Hn.
+        destruct (interp f3 root v' (add_seen (with_depth st (S (depth st))) k)) as [[c sx]| | |]; cbn [bind]; try exact I. contradiction.
       - apply Bool.orb_false_elim in Eb as [Es El]. split; [exact Hfv | split; assumption]. }
     split.
     - (* values *)
